@@ -29,25 +29,485 @@ from onnx import numpy_helper as onh
 
 from harness.common import Ctx, Part, load_corpus, pmap
 
-THEOREMS: list[str] = []
+THEOREMS: list[str] = [
+    "IrVerif.Passes.C05_dce",
+    "IrVerif.Passes.C05_identity",
+    "IrVerif.Passes.C05_cse",
+    "IrVerif.Passes.C05_rm_init_inputs",
+    "IrVerif.Passes.C05_add_init_inputs",
+    "IrVerif.Passes.C05_clear_meta",
+    "IrVerif.Passes.C05_name_fix",
+    "IrVerif.Passes.C05_lift_const",
+    "IrVerif.Passes.C05_dedup_partial",
+    "IrVerif.Passes.C05_output_fix",
+    "IrVerif.Passes.C05_compose",
+    "IrVerif.Passes.C05_lift_sub_inits",
+    "IrVerif.Passes.C05_toposort",
+    "IrVerif.Passes.C05_toposort_sorted",
+]
 ASSUMPTIONS = [
     "operator semantics = onnx.reference.ReferenceEvaluator (onnx 1.22) on 2 generated input sets per model; "
     "string tensors are hex-escaped and '' outputs renamed before evaluation (evaluator loses trailing NULs and "
     "stores omitted outputs under the name '')",
-    "validity = onnx.checker.check_model(full_check=False)",
+    "validity = onnx.checker.check_model(full_check=False); full_check=True is compared when the model before passes it",
     "generated models use a fixed family of small static shapes and opset 18/20",
+    "Lean semantics: total sequential evaluation of an SSA graph nest for an ARBITRARY operator interpretation "
+    "`sem` (any function: determinism only), Identity and Constant fixed, graph attributes denoted under the current "
+    "environment; names, types, shapes, metadata, opset imports are not part of the modelled IR; a model-local "
+    "function body is a graph and a call site is an operator interpreted by `sem` (the link call = body is not "
+    "formalised: InlinePass / RemoveUnusedFunctionsPass are differential only)",
+    "hypotheses of the theorems (validModel: SSA, outputs bound in their graph, topologically ordered, scoped; "
+    "dedupFaithfulG for DeduplicateInitializers) are evaluated by the driver on every generated case: counted as "
+    "corr_valid / corr_chain_ok / corr_assumption_unmet in the distribution",
+    "no Lean model (differential only): AddDefaultAttributesPass, ShapeInferencePass, CheckerPass (ONNX C++ "
+    "schemas), InlinePass, RemoveUnusedFunctionsPass, RemoveUnusedOpsetsPass, and the schema-driven optional-output "
+    "trimming inside RemoveUnusedNodesPass (the correspondence runs that pass with _remove_unused_optional_outputs "
+    "disabled; the oracle runs the real pass)",
+    "not compared with the model (counted as corr_skipped): CSE on nodes with string-tensor attributes and "
+    "DeduplicateHashedInitializers with string initializers (keys built from object addresses), "
+    "RemoveUnusedNodes after an earlier pass of the same sequence left uses registered by detached subgraph nodes",
+    "names are not part of the property (number and order are): a main-graph input/output renamed by OutputFixPass "
+    "(which has to separate two values that shared one name) is exempt, by any other pass it is a failure",
+    "DeduplicateHashedInitializersPass = DeduplicateInitializersPass assuming no SHA-512 collision",
+    "TopologicalSortPass: identity on valid (sorted) models by stability (C12); the permutation theorem is exercised "
+    "on shuffled variants of every generated model",
 ]
 
-# === CORRESPONDENCE (lead fills in) ===========================================================
+# === CORRESPONDENCE ===========================================================================
+# Model (lean/IrVerif/Model/Passes.lean, driver command `passes.run`) vs implementation, per step and per
+# maximal run of modelled passes of every generated sequence; structure is compared modulo value/node
+# identities and names (ids renumbered by first appearance in a fixed walk).
 # Called once per (model, sequence) right after the oracle, inside the worker process.
-#   part                       harness.common.Part (use part.disagree / part.count)
-#   case_id                    {"seed","chunk","model","sha1","seq"}
-#   ir_model_before_factory    zero-arg callable returning a FRESH onnx_ir.Model of the model before any pass
-#   seq_names                  list of keys of PASSES
+
+# real pass name -> driver pass name (passes with a Lean model and a C05_* theorem)
+MODELLED = {
+    "RemoveUnusedNodesPass": "dce",  # with _remove_unused_optional_outputs disabled (schema-driven: no model)
+    "IdentityEliminationPass": "identity",
+    "CommonSubexpressionEliminationPass": "cse:10",
+    "CommonSubexpressionEliminationPass(size_limit=0)": "cse:0",
+    "CommonSubexpressionEliminationPass(size_limit=2000)": "cse:2000",
+    "DeduplicateInitializersPass": "dedup:1024",
+    "DeduplicateInitializersPass(size_limit=4)": "dedup:4",
+    "DeduplicateHashedInitializersPass": "dedup:4294967296",
+    "LiftConstantsToInitializersPass": "lift:0:16",
+    "LiftConstantsToInitializersPass(all,0)": "lift:1:0",
+    "LiftConstantsToInitializersPass(value,0)": "lift:0:0",
+    "RemoveInitializersFromInputsPass": "rm_init_inputs",
+    "AddInitializersToInputsPass": "add_init_inputs",
+    "OutputFixPass": "output_fix",
+    "LiftSubgraphInitializersToMainGraphPass": "lift_sub_inits",
+    "ClearMetadataAndDocStringPass": "clear_meta",
+    "NameFixPass": "name_fix",
+    # identity model: a checker-valid model is topologically ordered and the sort is stable (C12); the
+    # permutation theorem C05_toposort is exercised by the shuffled stream (`_shuffle_nodes` below)
+    "TopologicalSortPass": "topo_sort",
+}
+# no Lean model (differential only: the oracle above is the whole check for these)
+UNMODELLED_NOTE = (
+    "AddDefaultAttributesPass, ShapeInferencePass, CheckerPass (ONNX C++ schemas), InlinePass, "
+    "RemoveUnusedFunctionsPass, RemoveUnusedOpsetsPass and the schema-driven output trimming of "
+    "RemoveUnusedNodesPass"
+)
+
+
+class Unencodable(Exception):
+    pass
+
+
+def _f32bits(x: float) -> int:
+    import math
+
+    try:
+        b = struct.pack("<f", x)
+    except OverflowError:
+        raise Unencodable("float attribute does not fit float32") from None
+    y = struct.unpack("<f", b)[0]
+    if not (y == x or (math.isnan(x) and math.isnan(y))):
+        raise Unencodable("float attribute is not a float32 value")
+    return struct.unpack("<I", b)[0]
+
+
+def _bytes_of_str(s) -> list[int]:
+    return list(s.encode("utf-8")) if isinstance(s, str) else list(bytes(s))
+
+
+class Encoder:
+    """onnx_ir.Model -> JSON for the Lean driver; object identities -> creation indices."""
+
+    def __init__(self):
+        self.ids: dict[int, int] = {}
+        self.keep: list = []
+        self.opaque: list = []
+        self.string_tensor_attr = False
+        self.nodes: set[int] = set()
+
+    def vid(self, v) -> int:
+        k = id(v)
+        if k not in self.ids:
+            self.ids[k] = len(self.ids)
+            self.keep.append(v)
+        return self.ids[k]
+
+    def tensor(self, t) -> dict:
+        import onnx_ir as ir
+
+        if t is None:
+            raise Unencodable("initializer without const_value")
+        shape = [int(d) for d in t.shape.numpy()]
+        if t.dtype == ir.DataType.STRING:
+            return {"d": int(t.dtype), "s": shape, "b": [], "x": [list(bytes(s)) for s in t.string_data()]}
+        return {"d": int(t.dtype), "s": shape, "b": list(t.tobytes()), "x": []}
+
+    def opaque_uid(self, key) -> int:
+        for i, k in enumerate(self.opaque):
+            try:
+                if k is key or k == key:
+                    return i
+            except Exception:  # noqa: BLE001
+                pass
+        self.opaque.append(key)
+        return len(self.opaque) - 1
+
+    def attr(self, a) -> dict:
+        import onnx_ir as ir
+
+        T = ir.AttributeType
+        if a.is_ref():
+            return {"k": "opaque", "v": {"tag": 1000 + int(a.type), "uid": self.opaque_uid(("ref", a.ref_attr_name))}}
+        t, v = a.type, a.value
+        if t == T.INT:
+            return {"k": "int", "v": int(v)}
+        if t == T.FLOAT:
+            return {"k": "float", "v": _f32bits(float(v))}
+        if t == T.STRING:
+            return {"k": "str", "v": _bytes_of_str(v)}
+        if t == T.INTS:
+            return {"k": "ints", "v": [int(x) for x in v]}
+        if t == T.FLOATS:
+            return {"k": "floats", "v": [_f32bits(float(x)) for x in v]}
+        if t == T.STRINGS:
+            return {"k": "strs", "v": [_bytes_of_str(x) for x in v]}
+        if t == T.TENSOR:
+            if v.dtype == ir.DataType.STRING:
+                self.string_tensor_attr = True
+            return {"k": "tensor", "v": self.tensor(v)}
+        return {"k": "opaque", "v": {"tag": int(t), "uid": self.opaque_uid(v)}}
+
+    def node(self, n) -> dict:
+        import onnx_ir as ir
+
+        T = ir.AttributeType
+        attrs, bodies = [], []
+        for name, a in n.attributes.items():
+            if not a.is_ref() and a.type == T.GRAPH:
+                bodies.append(self.graph(a.value))
+            elif not a.is_ref() and a.type == T.GRAPHS:
+                bodies.extend(self.graph(g) for g in a.value)
+            else:
+                attrs.append([name, self.attr(a)])
+        attrs.sort(key=lambda p: p[0])
+        d, t, o = n.op_identifier()
+        self.nodes.add(id(n))
+        return {"op": [d, t, o], "a": attrs, "in": [None if v is None else self.vid(v) for v in n.inputs],
+                "out": [self.vid(v) for v in n.outputs], "b": bodies}
+
+    def graph(self, g) -> dict:
+        import onnx_ir as ir
+
+        ins = [self.vid(v) for v in g.inputs]
+        inits = []
+        if isinstance(g, ir.Graph):
+            for _name, v in g.initializers.items():
+                inits.append([self.vid(v), self.tensor(v.const_value)])
+        nodes = [self.node(n) for n in g]
+        outs = [self.vid(v) for v in g.outputs]
+        return {"i": ins, "o": outs, "t": inits, "n": nodes}
+
+    def model(self, m) -> dict:
+        return {"g": self.graph(m.graph), "f": [self.graph(f) for f in m.functions.values()]}
+
+    def has_ghost_uses(self) -> bool:
+        """some value is still used by a node that is no longer part of the model (a node of a subgraph
+        of a removed node: `Graph.remove(safe=True)` detaches only the removed node's own inputs)"""
+        for v in self.keep:
+            for u in v.uses():
+                if id(u.node) not in self.nodes:
+                    return True
+        return False
+
+
+def canon(mj: dict) -> dict:
+    """value ids renamed by first appearance in a fixed walk (comparison modulo identities and names)"""
+    ren: dict[int, int] = {}
+
+    def r(v):
+        if v is None:
+            return None
+        if v not in ren:
+            ren[v] = len(ren)
+        return ren[v]
+
+    uids: dict[tuple, int] = {}
+
+    def attr(a):
+        if a["k"] != "opaque":
+            return a
+        key = (a["v"]["tag"], a["v"]["uid"])
+        if key not in uids:
+            uids[key] = len(uids)
+        return {"k": "opaque", "v": {"tag": a["v"]["tag"], "uid": uids[key]}}
+
+    def graph(g):
+        return {"i": [r(v) for v in g["i"]], "t": [[r(p[0]), p[1]] for p in g["t"]],
+                "n": [node(n) for n in g["n"]], "o": [r(v) for v in g["o"]]}
+
+    def node(n):
+        return {"op": n["op"], "a": [[p[0], attr(p[1])] for p in n["a"]], "in": [r(v) for v in n["in"]],
+                "out": [r(v) for v in n["out"]], "b": [graph(b) for b in n["b"]]}
+
+    return {"g": graph(mj["g"]), "f": [graph(f) for f in mj["f"]]}
+
+
+def first_diff(a, b, path="") -> str | None:
+    if type(a) is not type(b):
+        return f"{path}: {a!r} != {b!r}"[:300]
+    if isinstance(a, dict):
+        for k in a:
+            if k not in b:
+                return f"{path}.{k}: missing"
+            d = first_diff(a[k], b[k], f"{path}.{k}")
+            if d:
+                return d
+        return None
+    if isinstance(a, list):
+        if len(a) != len(b):
+            return f"{path}: length {len(a)} != {len(b)}"
+        for i, (x, y) in enumerate(zip(a, b)):
+            d = first_diff(x, y, f"{path}[{i}]")
+            if d:
+                return d
+        return None
+    return None if a == b else f"{path}: {a!r} != {b!r}"[:300]
+
+
+def _trunc(obj, n: int = 1500) -> str:
+    import json
+
+    s = json.dumps(obj, separators=(",", ":"))
+    return s if len(s) <= n else s[:n] + "..."
+
+
+def _run_real(name: str, model):
+    """apply the real pass; RemoveUnusedNodesPass runs without its schema-driven output trimming"""
+    if _base_name(name) == "RemoveUnusedNodesPass":
+        from onnx_ir.passes.common import unused_removal as UR
+
+        saved = UR._remove_unused_optional_outputs
+        UR._remove_unused_optional_outputs = lambda *a, **k: False
+        try:
+            return PASSES[name]()(model)
+        finally:
+            UR._remove_unused_optional_outputs = saved
+    return PASSES[name]()(model)
+
+
+def _shuffle_nodes(model, rng) -> int:
+    """permute the node list of every graph of the model by swaps of adjacent independent nodes (the
+    result is again topologically ordered); returns the number of swaps"""
+    import onnx_ir as ir
+
+    def deep_uses(n) -> set[int]:
+        s = {id(v) for v in n.inputs if v is not None}
+        for a in n.attributes.values():
+            if a.is_ref():
+                continue
+            subs = [a.value] if a.type == ir.AttributeType.GRAPH else (
+                list(a.value) if a.type == ir.AttributeType.GRAPHS else [])
+            for sg in subs:
+                for m in sg:
+                    s |= deep_uses(m)
+        return s
+
+    total = 0
+    graphs = list(model.graphs())
+    for f in model.functions.values():
+        graphs.append(f)
+        graphs.extend(f.subgraphs())
+    for g in graphs:
+        nodes = list(g)
+        if len(nodes) < 2:
+            continue
+        uses = {id(n): deep_uses(n) for n in nodes}
+        swaps = 0
+        for _ in range(2 * len(nodes)):
+            i = rng.randrange(len(nodes) - 1)
+            a, b = nodes[i], nodes[i + 1]
+            if {id(v) for v in a.outputs} & uses[id(b)]:
+                continue
+            nodes[i], nodes[i + 1] = b, a
+            swaps += 1
+        if swaps:
+            g.remove(nodes)
+            g.extend(nodes)
+            total += swaps
+    return total
+
+
+def _correspond_reorder(part, case_id, ir_model_before_factory) -> None:
+    """TopologicalSortPass as a permutation (theorem C05_toposort): shuffle a fresh model into another
+    valid order, sort it with the real pass, and let the driver check that the result is a nest-wise
+    permutation of valid models"""
+    try:
+        model = ir_model_before_factory()
+        rng = random.Random("C05:shuffle:" + str(case_id.get("sha1", "")))
+        swaps = _shuffle_nodes(model, rng)
+        a = Encoder().model(model)
+        PASSES["TopologicalSortPass"]()(model)
+        b = Encoder().model(model)
+    except Unencodable:
+        part.count("corr_skipped:unencodable")
+        return
+    except Exception as e:  # noqa: BLE001
+        part.count("corr_skipped:shuffle_raised:" + type(e).__name__)
+        return
+    part.count("corr_shuffle_swaps=" + ("0" if swaps == 0 else "1-5" if swaps <= 5 else ">5"))
+    _CORR_BUF.append(({"m": "passes.reorder", "a": a, "b": b}, "reorder", [swaps], None, case_id))
+
+
+_CORR_BUF: list[tuple] = []  # (request, kind, where, expected canonical model, case_id)
+_CORR_FLUSH_AT = 400  # requests per driver call (the driver process start-up dominates small calls)
+
+
+def _has_string_init(model) -> bool:
+    import onnx_ir as ir
+
+    for g in model.graphs():
+        for v in g.initializers.values():
+            if v.const_value is not None and v.const_value.dtype == ir.DataType.STRING:
+                return True
+    return False
 
 
 def correspond(part, case_id, ir_model_before_factory, seq_names):
+    try:
+        model = ir_model_before_factory()
+    except Exception:  # noqa: BLE001
+        part.count("corr_skipped:deserialize")
+        return None
+    if list(seq_names) == ["TopologicalSortPass"]:
+        _correspond_reorder(part, case_id, ir_model_before_factory)
+    pending: list[tuple] = []
+    seg_start_enc = None
+    seg_names: list[str] = []
+    seg_first = 0
+
+    def close_segment(end_enc):
+        nonlocal seg_start_enc, seg_names
+        if seg_start_enc is not None and len(seg_names) >= 2 and end_enc is not None:
+            pending.append(({"m": "passes.run", "pass": list(seg_names), "model": seg_start_enc},
+                            "segment", [seg_first, list(seg_names)], canon(end_enc), case_id))
+        seg_start_enc, seg_names = None, []
+
+    last_enc = None
+    for i, name in enumerate(seq_names):
+        lean_name = MODELLED.get(name)
+        try:
+            enc = Encoder()
+            before = enc.model(model)
+        except Unencodable as e:
+            part.count("corr_skipped:unencodable:" + str(e)[:40])
+            break
+        if lean_name is None:
+            close_segment(before)
+        skip = None
+        if lean_name is not None and lean_name.startswith("cse") and enc.string_tensor_attr:
+            # key of a string-tensor attribute = object addresses (numpy object array): not modelled
+            skip = "cse_string_tensor_attr"
+        if lean_name == "dce" and enc.has_ghost_uses():
+            # Value.uses() still lists nodes of subgraphs of nodes removed by an earlier pass of this
+            # sequence; that history is not part of the encoded model
+            skip = "dce_ghost_uses_from_earlier_pass"
+        if lean_name == "dedup:4294967296" and _has_string_init(model):
+            # the digest of a string tensor is taken over object addresses: not modelled
+            skip = "hashed_dedup_string_initializer"
+        try:
+            _run_real(name, model)
+        except Exception as e:  # noqa: BLE001 - the oracle reports raising passes; nothing to compare
+            part.count("corr_skipped:real_pass_raised:" + _base_name(name) + ":" + type(e).__name__)
+            close_segment(before)
+            break
+        if lean_name is None:
+            part.count("corr_unmodelled_step")
+            last_enc = None
+            continue
+        if skip:
+            part.count("corr_skipped:" + skip)
+            close_segment(before)
+            last_enc = None
+            continue
+        try:
+            after = Encoder().model(model)
+        except Unencodable as e:
+            part.count("corr_skipped:unencodable:" + str(e)[:40])
+            break
+        pending.append(({"m": "passes.run", "pass": [lean_name], "model": before}, "step", [i, name],
+                        canon(after), case_id))
+        if seg_start_enc is None:
+            seg_start_enc, seg_first = before, i
+        seg_names.append(lean_name)
+        last_enc = after
+    close_segment(last_enc)
+    _CORR_BUF.extend(pending)
+    if len(_CORR_BUF) >= _CORR_FLUSH_AT:
+        corr_flush(part)
     return None
+
+
+def corr_flush(part) -> None:
+    """send the buffered model requests to the Lean driver and compare"""
+    from harness.common import lean_batch
+
+    if not _CORR_BUF:
+        return
+    buf = list(_CORR_BUF)
+    _CORR_BUF.clear()
+    outs = lean_batch([b[0] for b in buf])
+    for (_req, kind, where, expect, case_id), out in zip(buf, outs):
+        part.count("corr_" + kind)
+        if "err" in out:
+            part.disagree(f"driver error at {kind} {where}: {out['err']}", case_id, out, None)
+            continue
+        if kind == "reorder":
+            if out.get("reorder") and out.get("valid_a") and out.get("valid_b"):
+                part.count("corr_agree")
+            else:
+                part.disagree(f"TopologicalSortPass on a shuffled model: not a valid permutation: {out}",
+                              case_id, out, None)
+            continue
+        if kind == "step":
+            part.count("corr_valid=" + str(out.get("valid")))
+            if not out.get("valid"):
+                part.count("corr_invalid_why:" + "+".join(out.get("why", [])))
+                import os
+                if os.environ.get("C05_DUMP_INVALID"):
+                    import json as _json
+                    _json.dump({"req": _req, "where": where, "case": case_id}, open(os.environ["C05_DUMP_INVALID"], "w"))
+                if len(part["samples"]) < 4:
+                    part["samples"].append({"invalid_model_case": case_id, "why": out.get("why")})
+            if not out.get("chain_ok"):
+                part.count("corr_assumption_unmet:" + where[1])
+        else:
+            part.count("corr_chain_ok=" + str(out.get("chain_ok")))
+        if not out.get("valid_after"):
+            part.count("corr_valid_after=False")
+        got = canon(out["model"])
+        if got != expect:
+            part.disagree(
+                f"{kind} {where}: model result != real pass result at {first_diff(got, expect)}",
+                case_id, _trunc(got), _trunc(expect),
+            )
+        else:
+            part.count("corr_agree")
 
 
 # === END CORRESPONDENCE =======================================================================
@@ -1349,6 +1809,15 @@ EXCLUDED_RAISES: list[tuple[str, str, str]] = [
 ]
 
 
+# The property preserves the NUMBER and ORDER of graph outputs and non-initializer inputs, not their names.  A pass
+# that renames a main-graph input/output is reported (io-rename-*) except where renaming is what the pass is for:
+RENAME_EXEMPT = {
+    # output_fix.py:86-101,126-137: a value listed twice as output / a graph input used as output gets an Identity;
+    # one of the two values that shared a name has to be renamed ("<name>_alias_<i>", "<name>_orig")
+    "OutputFixPass": "OutputFixPass separates values that shared one name; count, order and values are preserved",
+}
+
+
 def _quiet() -> None:
     logging.getLogger("onnx_ir").setLevel(logging.CRITICAL)
     logging.getLogger("onnx_ir").propagate = False
@@ -1465,8 +1934,17 @@ def _evaluate(proto: onnx.ModelProto, inputs: list[dict]) -> list:
     from onnx.reference import ReferenceEvaluator
 
     sess = ReferenceEvaluator(_prep_for_eval(proto))
+    # the property is positional: when a pass renamed a model input (only OutputFixPass may, see RENAME_EXEMPT)
+    # the k-th supplied tensor goes to the k-th non-initializer input
+    names = [n for n, _ in _io_sig(proto)["inputs"]]
+
+    def feed(feeds: dict) -> dict:
+        if set(feeds) != set(names) and len(feeds) == len(names):
+            return dict(zip(names, feeds.values()))
+        return feeds
+
     # feeds are copied: some reference operators (BatchNormalization in training mode) write into their inputs
-    return [[_canon_out(a) for a in sess.run(None, {k: np.array(v, copy=True) for k, v in feeds.items()})]
+    return [[_canon_out(a) for a in sess.run(None, {k: np.array(v, copy=True) for k, v in feed(feeds).items()})]
             for feeds in inputs]
 
 
@@ -1636,6 +2114,13 @@ def _check_sequence(proto: onnx.ModelProto, seq: list[str], inputs: list[dict], 
         if st is None:
             st = cache[key] = _analyse(after, inputs)
         diff = _compare(base, st)
+        if diff is not None and diff[0].startswith("io-rename") and _base_name(name) in RENAME_EXEMPT:
+            # names are not part of the property (count and order are); later steps are compared
+            # against the renamed signature
+            res.setdefault("exempt", []).append(f"{diff[0]}:{_base_name(name)}")
+            base = dict(base)
+            base["io"] = st["io"]
+            diff = _compare(base, st)
         if diff is not None:
             res.update(status="fail", kind=diff[0], **{"pass": name}, step=step, detail=diff[1], after=raw_after,
                        before_step=raw_prev)
@@ -2037,6 +2522,8 @@ def oracle(part, case_id, proto_before: onnx.ModelProto, seq_names: list[str], i
     state = state if state is not None else {}
     res = _check_sequence(proto_before, list(seq_names), inputs, cache)
     part.count("oracle:" + res["status"])
+    for e in res.get("exempt", []):
+        part.count("exempt:" + e)
     if res["status"] != "fail":
         return res
     kind, pname = res["kind"], res["pass"]
@@ -2154,6 +2641,7 @@ def _work(chunk: tuple) -> dict:
                 nfeatures=nfeat, status=res["status"],
             )
             correspond(part, case_id, lambda b=raw: ir.serde.deserialize_model(_parse(b)), seq)
+    corr_flush(part)
     return part
 
 
@@ -2186,8 +2674,9 @@ def run(ctx: Ctx) -> None:
         proto.ParseFromString(base64.b64decode(case["model_b64"]))
         correspond(part, {"corpus": True}, lambda b=proto.SerializeToString(): ir.serde.deserialize_model(_parse(b)),
                    list(case["seq"]))
+    corr_flush(part)
     ctx.merge(part)
-    n = ctx.pick(480, 8000)
+    n = ctx.pick(320, 6400)
     per = [n // N_CHUNKS + (1 if i < n % N_CHUNKS else 0) for i in range(N_CHUNKS)]
     chunks = [(ctx.seed, i, per[i]) for i in range(N_CHUNKS)]
     for p in pmap(_work, chunks):
